@@ -481,3 +481,201 @@ class OrderTarget(WireTarget):
             res['undecided'].append('unsupported construct: %s' % u)
         res['seconds'] = round(time.time() - t0, 3)
         return res
+
+
+# ---------------------------------------------------------------------------------
+# gradient: one backward iteration of compute_gradient_and_dynamics, executed as a fragment
+import ast
+from pyvc.interp import Frame, Closure
+
+
+def find_loops(funcref):
+    loops = [n for n in ast.walk(funcref.node) if isinstance(n, (ast.For, ast.While))]
+    loops.sort(key=lambda n: (n.lineno, n.col_offset))
+    return loops
+
+
+def spec_forward_transposed(E, none_at=()):
+    """<back| applied to one forward step  P2 . M_{E-1} ... M_0 . P1, as a covector on the
+    (bond legs..., system leg) of the step's input:   y[b.., s0]"""
+    lab = {}
+
+    def f(c):
+        if c not in lab:
+            lab[c] = tnnorm.new_label()
+        return lab[c]
+    factors = [('back', tuple(f('c%d' % i) for i in range(E)) + (f('t_out'),)),
+               ('P2', (f('t_out'), f('x%d' % E)))]
+    out_b = []
+    for i in range(E):
+        factors.append(('M%d' % i, (f('b%d' % i), f('c%d' % i), f('x%d' % i), f('x%d' % (i + 1)))))
+        out_b.append(f('b%d' % i))
+    factors.append(('P1', (f('x0'), f('s0'))))
+    return TArr(factors, out_b + [f('s0')])
+
+
+def spec_derivative(E):
+    """network with the two half propagators of step n removed: open legs
+    (out of previous step | in of MPO_0 | out of last MPO | in of next step)"""
+    lab = {}
+
+    def f(c):
+        if c not in lab:
+            lab[c] = tnnorm.new_label()
+        return lab[c]
+    factors = [('fwd', tuple(f('b%d' % i) for i in range(E)) + (f('t0'),))]
+    for i in range(E):
+        factors.append(('Mprev%d' % i, (f('b%d' % i), f('c%d' % i), f('x%d' % i), f('x%d' % (i + 1)))))
+    factors.append(('backnew', tuple(f('c%d' % i) for i in range(E)) + (f('t3'),)))
+    return TArr(factors, [f('t0'), f('x0'), f('x%d' % E), f('t3')])
+
+
+class BackwardStepTarget(WireTarget):
+    def __init__(self, E, prop='C08'):
+        self.E = E
+        self.name = 'grad/backward-iteration[envs=%d]' % E
+        self.qualname = 'gradient.compute_gradient_and_dynamics'
+        self.prop = prop
+        self.registry = None
+        self.replay_fn = None
+
+    def run(self, timeout_ms, tier):
+        t0 = time.time()
+        E = self.E
+        repo = Repo()
+        res = {'target': self.name, 'function': self.qualname + ' (backward loop body, executed as a fragment)', 'property': self.prop,
+               'paths': 1, 'obligations': [], 'undecided': [], 'errors': [], 'flags': ['FREE_TENSOR_SYMBOLS'],
+               'lib_pure': [], 'lib_used': ['tensornetwork', 'numpy.swapaxes']}
+        fref = repo.resolve(self.qualname)
+        if fref is None:
+            res['undecided'].append('contract target missing')
+            return res
+        res['function_info'] = describe(fref)
+        loops = find_loops(fref)
+        try:
+            bw = [l for l in loops if isinstance(l, ast.For) and 'reversed' in ast.dump(l.iter)][0]
+        except IndexError:
+            res['undecided'].append('contract target missing: backward loop of compute_gradient_and_dynamics')
+            return res
+        R = Registry()
+        tnnorm.install(R)
+
+        @model
+        def noop(ip, args, kw):
+            return None
+        R.models['Prog.update'] = noop
+        Vv.reset_fresh()
+        ip = Interp(repo, R, [], solver_timeout_ms=timeout_ms)
+        frame = Frame(fref.module, func=fref.node, qualname=fref.qualname)
+        back = TArr.sym('back', E + 1)
+        node = TNode(back)
+
+        @model
+        def controls(ip_, a, k):
+            return None, None
+
+        @model
+        def propagators(ip_, a, k):
+            return TArr.sym('P1', 2), TArr.sym('P2', 2)
+        step = 1
+        fwd_prev = TNode(TArr.sym('fwd', E + 1))
+        frame.vars.update({
+            'current_node': node, 'current_edges': list(node.edges), 'controls': controls, 'propagators': propagators,
+            'mpo_list': [[TArr.sym('Mprev%d' % i, 4) for i in range(E)], [TArr.sym('M%d' % i, 4) for i in range(E)]],
+            'forwardprop_derivs_list': [fwd_prev], 'combined_deriv_list': [], 'prog_bar': Obj('Prog', {}),
+            'loop': 0, 'step': step, 'num_steps': 2})
+        try:
+            ip.exec_block(bw.body, frame)
+            n2, e2 = frame.vars['current_node'], frame.vars['current_edges']
+            got = in_edge_order(n2, e2) if edges_cover_node(n2, e2) else None
+            want = spec_forward_transposed(E)
+            ok = got is not None and equal(got, want)
+            res['obligations'].append({'name': 'grad/backstep-is-transpose', 'backend': 'tnnorm', 'flags': ['FREE_TENSOR_SYMBOLS'],
+                                       'info': {'computed': repr(got), 'required': repr(want), 'environments': E},
+                                       'model': {'environments': E, 'computed': repr(got), 'required': repr(want)},
+                                       'pc_sat': 'sat', 'result': 'discharged' if ok else 'refuted', 'seconds': 0.0})
+            d = frame.vars['combined_deriv_list'][-1]
+            # the derivative tensor must pair the stored forward node with the NEW backward node
+            want_d = spec_derivative(E)
+            got_d = d
+            # rename: the backward node after this iteration is `got`; express it as a free symbol
+            ok_d = self._deriv_matches(got_d, got, E)
+            res['obligations'].append({'name': 'grad/open-legs', 'backend': 'tnnorm', 'flags': ['FREE_TENSOR_SYMBOLS'],
+                                       'info': {'computed': repr(got_d), 'environments': E}, 'model': {'environments': E, 'computed': repr(got_d)},
+                                       'pc_sat': 'sat', 'result': 'discharged' if ok_d else 'refuted', 'seconds': 0.0})
+        except Unsupported as u:
+            res['undecided'].append('unsupported construct: %s' % u)
+        except PyRaise as pr:
+            res['obligations'].append({'name': 'grad/backward-iteration-raises', 'backend': 'tnnorm', 'flags': [], 'info': {'exc': pr.exc.typ},
+                                       'pc_sat': 'sat', 'result': 'refuted', 'model': {'exc': pr.exc.typ}, 'seconds': 0.0})
+        res['seconds'] = round(time.time() - t0, 3)
+        return res
+
+    def _deriv_matches(self, got_d, backnew, E):
+        """got_d must equal  fwd . Mprev_0..Mprev_{E-1} . (backward node after this iteration)
+        with open legs (t0 | in of Mprev_0 | out of last Mprev | system leg of the backward node)."""
+        if got_d is None or backnew is None:
+            return False
+        lab = {}
+
+        def f(c):
+            if c not in lab:
+                lab[c] = tnnorm.new_label()
+            return lab[c]
+        b = backnew.relabel()
+        # bond legs of the backward node (in edge order) connect to the future bonds of Mprev_i
+        ren = {b.out[i]: f('c%d' % i) for i in range(E)}
+        ren[b.out[E]] = f('t3')
+        bf = [(s, tuple(ren.get(l, l) for l in ls)) for s, ls in b.factors]
+        factors = [('fwd', tuple(f('b%d' % i) for i in range(E)) + (f('t0'),))]
+        for i in range(E):
+            factors.append(('Mprev%d' % i, (f('b%d' % i), f('c%d' % i), f('x%d' % i), f('x%d' % (i + 1)))))
+        want = TArr(factors + bf, [f('t0'), f('x0'), f('x%d' % E), f('t3')])
+        return equal(got_d, want)
+
+
+def build_combine(which):
+    def build(ip, repo):
+        fref = repo.resolve('gradient._chain_rule')
+        from pyvc.modules import nested_function
+        node = nested_function(fref, 'combine_derivs')
+        clo = Closure(node, Frame(fref.module), fref.module, 'gradient._chain_rule.<locals>.combine_derivs')
+        D = TArr.sym('D', 4)
+        pre, post = TArr.sym('pre', 2), TArr.sym('post', 2)
+        return [clo, D, pre, post], {}, {}
+    return build
+
+
+class CombineTarget(WireTarget):
+    def __init__(self, prop='C08'):
+        self.name, self.qualname, self.prop, self.registry, self.replay_fn = 'chain/wiring', 'gradient._chain_rule', prop, None, None
+
+    def run(self, timeout_ms, tier):
+        t0 = time.time()
+        repo = Repo()
+        res = {'target': self.name, 'function': 'gradient._chain_rule.<locals>.combine_derivs', 'property': self.prop, 'paths': 1,
+               'obligations': [], 'undecided': [], 'errors': [], 'flags': ['FREE_TENSOR_SYMBOLS'], 'lib_pure': [], 'lib_used': ['tensornetwork']}
+        fref = repo.resolve(self.qualname)
+        from pyvc.modules import nested_function
+        node = nested_function(fref, 'combine_derivs') if fref else None
+        if node is None:
+            res['undecided'].append('contract target missing: combine_derivs')
+            return res
+        res['function_info'] = describe(fref)
+        R = Registry()
+        tnnorm.install(R)
+        Vv.reset_fresh()
+        ip = Interp(repo, R, [], solver_timeout_ms=timeout_ms)
+        clo = Closure(node, Frame(fref.module), fref.module, 'gradient._chain_rule.<locals>.combine_derivs')
+        try:
+            got = ip.call(clo, [TArr.sym('D', 4), TArr.sym('pre', 2), TArr.sym('post', 2)], {})
+            # adjoint legs 0,1 with the first-half factor, legs 2,3 with the second-half factor
+            want = einsum_spec('stuv,st,uv->', D='D', pre='pre', post='post')
+            res['obligations'].append(dict(zip(('name', 'ok', 'info'), cmp('chain/wiring', got, want))))
+            ob = res['obligations'][-1]
+            ob.update({'backend': 'tnnorm', 'flags': ['FREE_TENSOR_SYMBOLS'], 'pc_sat': 'sat', 'model': ob['info'],
+                       'result': 'discharged' if ob.pop('ok') else 'refuted', 'seconds': 0.0})
+        except Unsupported as u:
+            res['undecided'].append('unsupported construct: %s' % u)
+        res['seconds'] = round(time.time() - t0, 3)
+        return res
